@@ -134,7 +134,33 @@ func TestC14_Planted(t *testing.T) {
 		all := rapid.Bool().Draw(t, "all")
 		var e bx.Expr
 		filter := false
-		shape := rapid.IntRange(0, 6).Draw(t, "shape")
+		shape := rapid.IntRange(0, 8).Draw(t, "shape")
+		if shape >= 7 {
+			// entries of different float widths compared with a literal that only one width can read
+			// (out of float32 range, or just off a float32 midpoint): the outcome of an entry must not depend
+			// on which entry was evaluated before it
+			lit := []string{"1e39", "1.00000005960464478", "3.5e38", "16777217.0000000001"}[rapid.IntRange(0, 3).Draw(t, "flit")]
+			fm := &uni.Node{T: uni.MapOf(strT, uni.Iface())}
+			for i := 0; i < n; i++ {
+				var fv *uni.Node
+				if rapid.Bool().Draw(t, "f32") {
+					fv = uni.Float(uni.KFloat32, []float64{1, 16777216, float64(float32(1.0000001))}[rapid.IntRange(0, 2).Draw(t, "f32v")])
+				} else {
+					fv = uni.Float(uni.KFloat64, []float64{1, 1e39, 16777217}[rapid.IntRange(0, 2).Draw(t, "f64v")])
+				}
+				fm.Keys = append(fm.Keys, uni.Str("k"+strconv.Itoa(i)))
+				fm.Elems = append(fm.Elems, uni.InIface(&uni.Node{T: uni.MapOf(strT, uni.Iface()), Keys: []*uni.Node{uni.Str("f")}, Elems: []*uni.Node{uni.InIface(fv)}}))
+			}
+			m = fm
+			if shape == 7 {
+				filter = true
+				e = &bx.Match{Sel: bx.Sel{Parts: []string{"f"}}, Op: bx.OpEq, Lit: lit}
+				root = m
+			} else {
+				root = &uni.Node{T: uni.MapOf(strT, uni.Iface()), Keys: []*uni.Node{uni.Str("m")}, Elems: []*uni.Node{uni.InIface(m)}}
+				e = &bx.Quant{All: all, Sel: bx.Sel{Parts: []string{"m"}}, Mode: bx.BindValue, Value: "v", Body: &bx.Match{Sel: bx.Sel{Parts: []string{"v", "f"}}, Op: bx.OpNe, Lit: lit}}
+			}
+		}
 		if shape >= 5 {
 			// key-only bindings: a comparison on the key decides, for some keys only, whether a failing
 			// sub-expression that does not depend on the element is reached
@@ -152,7 +178,7 @@ func TestC14_Planted(t *testing.T) {
 			e = q
 		}
 		switch shape {
-		case 5, 6:
+		case 5, 6, 7, 8:
 		case 0:
 			e = &bx.Quant{All: all, Sel: bx.Sel{Parts: []string{"m"}}, Mode: bx.BindBoth, Index: "k", Value: "v", Body: body}
 		case 1:
